@@ -52,6 +52,19 @@ Example over_leveldb_nonvacuous :
   nth 2 (run leveldb (init leveldb) ops) OErr = OQuery [(1, (2, []))].   (* the stale answer, inherited as it is *)
 Proof. vm_compute. repeat split. Qed.
 
+(* obs #13 as found: formattedstore gave the FORMATTED key to a formatter that embeds the key it is given (the EDV
+   encrypted formatter) when it overwrote an existing key; afterwards the query iterator shows the formatted key
+   (here the random id 2000) and the internal tag Key:base64(key) (500, 1001).  Refuted by the model of the code as
+   found; the repaired variant agrees with the contract on the same history (corpus/C11/formatted-edv-random-overwrite-key.json). *)
+Theorem formatted_embed_asis_refuted :
+  let ops := [Put 1 1 [(1, 1)]; Query [(1, 0)]; Put 1 2 [(1, 1)]; Get 1; GetTags 1; Query [(1, 0)];
+              Batch [(1, 3, [(1, 2)])]; Query [(1, 2)]] in
+  run (formatted_rand_embed false b64_fmt (mem true)) ([], 0) ops <> run (spec_prov false) [] ops /\
+  nth 5 (run (formatted_rand_embed false b64_fmt (mem true)) ([], 0) ops) OErr = OQuery [(2000, (2, [(1, 1); (500, 1001)]))] /\
+  run (formatted_rand_embed true b64_fmt (mem true)) ([], 0) ops = run (spec_prov false) [] ops.
+Proof. split; [|split]; vm_compute; [discriminate|reflexivity|reflexivity]. Qed.
+Print Assumptions formatted_embed_asis_refuted.
+
 (* ---------- GetBulk: arguments and positions ---------- *)
 Theorem getbulk_contract : forall pers a ks,
   snd (spec_step pers a (GetBulk ks)) =
